@@ -80,6 +80,8 @@ def make_plan(tape, prop):
     # has 2^depth include paths to its bottom; the simulated clock tells whether the work follows the paths or the files
     plan["inc_comment"] = 1 + tape.draw(3) if tape.chance(1, 6) else 0
     plan["deep"] = (14 + tape.draw(2)) if tape.chance(1, 150) else 0
+    if plan["deep"] and tape.chance(1, 3):
+        plan["deep"] += 10      # 2^24 paths: also a per-path cost of a few line events exceeds the budget (C13_h)
     plan["deep_isar"] = tape.chance(1, 3)
     return plan
 
